@@ -78,6 +78,13 @@ def raw_cfgs():
     return c
 
 HARNESSES = [
+    dict(name="rw_locks", src="rw_locks.c",
+         funcs=["read_bitmaps_range_start", "bitmap_tail_verify"],
+         unwind=4, unwindset=["bitmap_tail_verify.0:10", "io_channel_read_blk64.0:10", "main.0:3", "main.1:3", "main.2:3",
+                              "vf_record.0:3", "read_bitmaps_range_start.2:4"],
+         backends=["default", "kissat"],
+         bound="any 32-bit first group, range of 1 or 2 groups, 1 KiB blocks, 8128 bits per group, cluster ratio 1..16, "
+               "block and/or inode bitmap requested; read failures, uninitialised groups and bad padding symbolic per group"),
     dict(name="raw", src="raw.c", funcs=["raw_read_blk"],
          configs=raw_cfgs(), unwind=8,
          unwindset=["vf_do_read.0:26", "vf_do_write.0:26", "vf_do_read.1:18", "vf_do_write.1:18"] +
